@@ -50,7 +50,9 @@ Seeds == <<
     "2020-03-15\r\n    1h\n    2h Bar\n",
     "2020-03-13\r\n    1h\r\n\r\n2020-03-14\n    3h\n\r\n2020-03-16\r\n    1h\r\n",
     "2020-03-14\n    22:00 - ? x\r\n        more\n\n2020-03-15\r\n\t9:00 - ?\n\t\tnote\r\n",
-    "2020-03-15\n    8:00 - ???????????? long placeholder\n    -1h59m pause\n\n2020-03-16\n    1h\n"
+    "2020-03-15\n    8:00 - ???????????? long placeholder\n    -1h59m pause\n\n2020-03-16\n    1h\n",
+    "2020-03-15\n    8:00 - ?  \n",
+    "2020-03-15\n    8:00 - ? Meeting   \n        more  \n    -5m \n"
 >>
 NSeeds == Len(Seeds)
 
